@@ -57,6 +57,15 @@ pub fn addr4(i: u8) -> [u8; 4] {
     [[10, 0, 0, 1], [10, 0, 0, 2], [10, 0, 1, 1], [172, 16, 5, 9], [192, 168, 1, 77], [203, 0, 113, 5]][i as usize % 6]
 }
 pub fn addr6(i: u8) -> [u8; 16] {
+    // the upper half of the pool: IPv4-mapped forms (::ffff:a.b.c.d) of the IPv4 pool - IPv6 endpoints for every decoder, whatever
+    // a component that reads addresses on its own makes of them
+    if i % 12 >= 6 {
+        let mut a = [0u8; 16];
+        a[10] = 0xff;
+        a[11] = 0xff;
+        a[12..].copy_from_slice(&addr4(i));
+        return a;
+    }
     let mut a = [0u8; 16];
     a[0] = 0x20;
     a[1] = 0x01;
@@ -67,11 +76,14 @@ pub fn addr6(i: u8) -> [u8; 16] {
 }
 
 impl Conn {
+    fn pool(&self) -> u8 {
+        if self.v4 { 6 } else { 12 }
+    }
     pub fn key(&self) -> (bool, u8, u16, u8, u16) {
-        (self.v4, self.c_addr % 6, self.c_port, self.s_addr % 6, self.s_port)
+        (self.v4, self.c_addr % self.pool(), self.c_port, self.s_addr % self.pool(), self.s_port)
     }
     pub fn rkey(&self) -> (bool, u8, u16, u8, u16) {
-        (self.v4, self.s_addr % 6, self.s_port, self.c_addr % 6, self.c_port)
+        (self.v4, self.s_addr % self.pool(), self.s_port, self.c_addr % self.pool(), self.c_port)
     }
     pub fn ips(&self) -> (Ip, Ip) {
         if self.v4 {
@@ -382,7 +394,7 @@ pub fn script(allow_h2: bool) -> impl Strategy<Value = Script> {
 
 pub fn conn(allow_h2: bool) -> impl Strategy<Value = Conn> {
     (
-        (proptest::bool::weighted(0.75), 0u8..6, 0u8..6, prop_oneof![Just(40000u16), Just(40001u16), Just(1025u16), Just(50000u16), 1024u16..65535], prop_oneof![Just(80u16), Just(443u16), Just(8080u16), Just(1024u16)]),
+        (proptest::bool::weighted(0.75), prop_oneof![4 => 0u8..6, 1 => 6u8..12], prop_oneof![4 => 0u8..6, 1 => 6u8..12], prop_oneof![Just(40000u16), Just(40001u16), Just(1025u16), Just(50000u16), 1024u16..65535], prop_oneof![Just(80u16), Just(443u16), Just(8080u16), Just(1024u16)]),
         script(allow_h2),
         vec(any::<u16>(), 0..4),
         vec(any::<u16>(), 0..4),
@@ -397,7 +409,7 @@ pub fn conn(allow_h2: bool) -> impl Strategy<Value = Conn> {
             v4,
             c_addr,
             // both endpoints on one host (loopback-like traffic) is allowed when the ports differ
-            s_addr: if s_addr % 6 == c_addr % 6 && (c_port == s_port || gap_ms % 3 != 0) { (s_addr + 1) % 6 } else { s_addr },
+            s_addr: if s_addr % 12 == c_addr % 12 && (c_port == s_port || gap_ms % 3 != 0) { (s_addr + 1) % 12 } else if v4 && s_addr % 6 == c_addr % 6 && (c_port == s_port || gap_ms % 3 != 0) { (s_addr + 1) % 6 } else { s_addr },
             c_port,
             s_port,
             script,
